@@ -67,6 +67,9 @@ def main():
                 rec["tests_failed"] = "failed" in t.stdout
                 print("tests:", rec["tests_tail"].splitlines()[-1] if rec["tests_tail"] else "?")
         env = dict(os.environ, IODATA_REPO=scratch)
+        # the evidence file must keep describing the unchanged tree: save it and put it back afterwards
+        ev_path = os.path.join(ROOT, "evidence", f"{a.pid}.json")
+        ev_saved = open(ev_path).read() if os.path.exists(ev_path) else None
         t0 = time.time()
         c = subprocess.run([os.path.join(ROOT, "bin", "check"), a.pid, "--tier", a.tier], capture_output=True, text=True,
                            env=env, cwd=ROOT)
@@ -92,6 +95,11 @@ def main():
         shutil.rmtree(scratch, ignore_errors=True)
         # Gen files now describe the scratch tree: restore the committed snapshot
         sh(f"git -C {ROOT} checkout -- lean/Iodata/Gen")
+        try:
+            if ev_saved is not None:
+                open(ev_path, "w").write(ev_saved)
+        except NameError:
+            pass
     os.makedirs(dest, exist_ok=True)
     if os.path.abspath(src) != os.path.abspath(dest):
         shutil.copy(patch, os.path.join(dest, "patch.diff"))
